@@ -13,6 +13,12 @@ Definition times_fired (i : N) (s : st) : nat := length (fired_of i s.(fired)).
 Definition accepted (s : st) (i : N) : Prop := s.(phase_of) i = Ret None.
 Definition refused (s : st) (i : N) : Prop := exists e, s.(phase_of) i = Ret (Some e).
 Definition not_called (s : st) (i : N) : Prop := s.(phase_of) i = Idle.
+(* sendRequest for request i is past its c.err check and has not yet got sendMu *)
+Definition at_the_door (s : st) (i : N) : Prop := s.(phase_of) i = Checked.
+(* sendRequest for request i has registered the request and is inside WriteDelimitedMessage *)
+Definition in_its_write (s : st) (i : N) : Prop := s.(phase_of) i = Writing.
+(* ... was refused as a duplicate of a pending test name *)
+Definition refused_as_duplicate (s : st) (i : N) : Prop := s.(phase_of) i = Ret (Some EDup).
 
 (* the reader goroutine has exited (the `done` channel is closed): what waitForResponses waits for *)
 Definition reader_exited (s : st) : Prop := s.(rd) = RDone.
@@ -39,11 +45,11 @@ Definition client_wrote (h : list action) (n : name) (tag : bytes) : Prop :=
     decode m = Some (n, tag).
 
 (* ---------- the canonical way out of any state ---------- *)
-(* the client process ends (environment), the writer that was in flight gets its error, the
-   reader sees the end of the output and cleans up *)
-Definition wind_down (s : st) : list action :=
-  ProcExit false false ::
-  match s.(mu) with Some i => [WriteFail i] | None => [] end ++ [RStep; RClose; RDrain].
+(* the client process ends (environment; with or without an error), the writer that was in flight
+   gets its error, the reader sees the end of the output and cleans up *)
+Definition wind_down (failed : bool) (s : st) : list action :=
+  ProcExit failed false ::
+  match s.(mu) with Some i => [WriteFail i (wfail_for (s.(req_of) i))] | None => [] end ++ [RStep; RClose; RDrain].
 
 Definition run_from (s : st) (h : list action) : st := fold_left step h s.
 
